@@ -157,21 +157,10 @@ theorem adjRemT_inj_kept {root off a b : Nat} (ha : isRem a root off = false) (h
 theorem removeAdj_coherent (s t : Sheet) (rc oc rr or_ : Nat) (h : Coherent s)
     (hok : removeAdj s rc oc rr or_ = .ok t) : Coherent t := by
   unfold removeAdj at hok
-  -- rows
-  generalize hR : (if or_ ≠ 0 then
-      match mapRes (fun p => (isRemV p.2.num rr or_).bind fun b => .ok (p, b)) s.rows with
-      | .panic => Res.panic
-      | .ok flagged =>
-        mapRes (fun p => (adjRemV p.2.num rr or_).bind fun n => .ok (n, ({ p.2 with num := n } : RowM)))
-          ((flagged.filter (fun p => !p.2)).map (·.1))
-    else Res.ok s.rows) = rowsR at hok
-  generalize hC : (if oc ≠ 0 then
-      match mapRes (fun c => (isRemV c.num rc oc).bind fun b => .ok (c, b)) s.cols with
-      | .panic => Res.panic
-      | .ok flagged =>
-        mapRes (fun c => (adjRemV c.num rc oc).bind fun n => .ok ({ c with num := n } : ColM))
-          ((flagged.filter (fun p => !p.2)).map (·.1))
-    else Res.ok s.cols) = colsR at hok
+  generalize hR : rowsRemove s.rows rr or_ = rowsR at hok
+  generalize hC : colsRemove s.cols rc oc = colsR at hok
+  unfold rowsRemove at hR
+  unfold colsRemove at hC
   cases colsR with
   | panic => simp at hok
   | ok cols =>
@@ -191,6 +180,7 @@ theorem removeAdj_coherent (s t : Sheet) (rc oc rr or_ : Nat) (h : Coherent s)
     · simp at hok
     · rename_i cells hcells
       injection hok with hok; subst hok
+      unfold cellsRemove at hcells
       obtain ⟨ecells, hcellsok⟩ := mapRes_ok _ _ _ hcells
       -- facts about the rows table
       have rowsFact : (∀ q ∈ rows, q.2.num = q.1) ∧ (rows.map (·.1)).Nodup ∧
